@@ -195,6 +195,18 @@ def stage2(shapes, s1_meta, s1_model, seed, tier='quick'):
                 mut[p] = v
                 add('M', '%s.B%d_%02x' % (cid, p, v), sid, 0, bytes(mut) + slack, kind='mutation', base=cid, pos=p,
                     val=v)
+        # ---- two-site mutations: one header byte changed AND everything behind it zeroed, so that whatever the
+        #      changed length / offset / tag now points at reads as "empty" or "terminator" (e.g. a FlexVec offset
+        #      that is no longer a multiple of the alignment but lands on a zero slot)
+        for p in positions:
+            zvals = {(img[p] + 1) & 255, (img[p] + 2) & 255, (img[p] - 1) & 255, (img[p] + a + 1) & 255}
+            zvals.discard(img[p])
+            if tier == 'quick':
+                zvals = set(rng.sample(sorted(zvals), min(2, len(zvals))))
+            for v in sorted(zvals):
+                mut = bytearray(img[:p + 1]) + bytes(size - p - 1 + 2 * a + 1)
+                mut[p] = v
+                add('M', '%s.Z%d_%02x' % (cid, p, v), sid, 0, bytes(mut), kind='mutation', base=cid, pos=p, val=v)
         # ---- assignment: current value = this image in a buffer with some slack, replacement = every
         #      init of the same shape (fits / does not fit)
         for j, other in enumerate(by_shape[sid]):
